@@ -97,4 +97,21 @@ theorem expState_scan_gc : (Api.scan (gc expState 10) 10 2 [42] 10 0).2 = .many 
     encodeKey, putVarint_zero, AList.set, putMeta, syncShared, AList.get?, List.find?,
     Api.scan, Api.scan.go, wrap64, int64Max, glob_star_b, modMeta, getMeta]
 
+/-! ### a rejected write -/
+
+/-- a hot modified record whose value was last written under deadline 5 and whose deadline is 9 now -/
+def staleRec : Meta :=
+  { exp := 9, value := some (.str [1]), state := 3, kid := 1, oid := 2, vtype := 1, stored := some 5 }
+
+/-- a Pebble store holding that record and its backend entry; the backend rejects the next write -/
+def staleState : MState :=
+  { pebble := true, nextId := 3, failSet := 1, index := [([107], staleRec)],
+    disk := [(encodeKey [107] 5, { name := [107], exp := 5, val := .str [0] })] }
+
+theorem staleState_persist_fails : (persist staleState [107] staleRec).2.2 = false := by
+  rw [persist_fail _ _ _ (by decide)]
+
+theorem staleState_entry : (diskGet staleState [107] 5).isSome = true := by
+  simp [diskGet, staleState, AList.get?]
+
 end NodisVerif.Proofs.C11
